@@ -40,7 +40,22 @@ if REPO in sys.path:
     sys.path.remove(REPO)
 sys.path.insert(0, REPO)
 
-import rtc.gen as G  # noqa: E402  (imports esp_kconfiglib from REPO)
+# The project is imported BEFORE rtc.gen: rtc.gen puts "/repo" in front of sys.path when it is not there yet, which would
+# shadow the tree named by $PYVC_REPO for every later (lazy) project import.
+import esp_kconfiglib.core  # noqa: E402,F401
+import kconfcheck.core  # noqa: E402,F401
+import kconfcheck.check_deprecated_options  # noqa: E402,F401
+import esp_idf_kconfig.gen_kconfig_doc  # noqa: E402,F401
+import kconfgen.core  # noqa: E402,F401
+
+import rtc.gen as G  # noqa: E402
+
+while REPO in sys.path:
+    sys.path.remove(REPO)
+sys.path.insert(0, REPO)
+for _m in ("esp_kconfiglib.core", "kconfcheck.core", "esp_idf_kconfig.gen_kconfig_doc", "kconfgen.core"):
+    if not os.path.abspath(sys.modules[_m].__file__).startswith(os.path.abspath(REPO) + os.sep):
+        raise ImportError("%s imported from %s, not from %s" % (_m, sys.modules[_m].__file__, REPO))
 
 K = G.K
 
